@@ -10,6 +10,7 @@ CONSTANTS
   MaxResets = 1
   MaxByz = 0
   Variant = "code"
+  ProbeHeights = {}
   FullChainUpTo = 0
 INVARIANTS TypeOK
 PROPERTIES EventuallySynced
